@@ -91,16 +91,37 @@ def wrap(r, nd):
 
 
 def concretize(objarr, dt):
+    """cast to a non-float dtype.  Constants are converted; a symbolic value cast to an integer dtype is truncated
+    towards zero concolically (the cast outcome k is fixed by the model and k <= x < k+1, resp. k-1 < x <= k, joins the
+    path condition), so that the explorer enumerates the other outcomes."""
     out = _np.empty(objarr.shape, dtype=dt)
     for idx in _np.ndindex(*objarr.shape):
         v = objarr[idx]
         if isinstance(v, S):
-            if not sc.isc(v.n):
+            if sc.isc(v.n):
+                v = v.n.val
+                v = int(v) if v.denominator == 1 else (int(v) if _np.dtype(dt).kind in "iu" else float(v))
+            elif _np.dtype(dt).kind in "iu":
+                v = _trunc(v.n)
+            else:
                 raise Unsupported("symbolic value cast to %s" % dt)
-            v = v.n.val
-            v = int(v) if v.denominator == 1 else float(v)
         out[idx] = v
     return out
+
+
+def _trunc(n):
+    import math
+    val = sc.evalf(n)
+    if val != val or abs(val) == float("inf"):
+        raise Unsupported("integer cast of an undefined value")
+    k = math.trunc(val)
+    if val >= 0:
+        sc.record_pc(sc.sub(n, const(k)), ">" if val > k else ("==" if CTX.allow_ties else "tie"))
+        sc.record_pc(sc.sub(n, const(k + 1)), "<")
+    else:
+        sc.record_pc(sc.sub(n, const(k)), "<" if val < k else ("==" if CTX.allow_ties else "tie"))
+        sc.record_pc(sc.sub(n, const(k - 1)), ">")
+    return k
 
 
 def scalar_to_array(s, nd=None):
@@ -593,6 +614,10 @@ def _to_symarray(x, dtype):
         nd = dtype if dtype is not None else (x.nd if x.nd is not None else _np.float64)
         if isinstance(nd, sc.FakeDType):
             nd = nd.nd
+        if not _is_float_dt(nd):
+            o = _np.empty((), dtype=object)
+            o[()] = x
+            return concretize(o, _np.dtype(nd))
         return scalar_to_array(x, nd)
     if isinstance(x, _np.ndarray):  # plain object array holding S
         o = lift_elements(x.copy()).view(SymArray)
